@@ -65,7 +65,9 @@ package ir
 //@   mode bv
 //@   tags C13 C14 C12
 //@   traverse remap kind ExpressionHandle rmh(handleMap, $)
-//@   except ExprAlias ExprPhi ExprCompose.Components
+//@   except ExprAlias ExprPhi
+//@   loop 2 invariant [copied] len(comps) == len(k.Components) && fresh(comps) && (forall j int :: 0 <= j && j <= rangeindex && j < len(k.Components) ==> comps[j] == rmh(handleMap, oldelem(k.Components, j)))
+//@   loop 2 invariant [source-kept] forall j int :: 0 <= j && j < len(k.Components) ==> k.Components[j] == oldelem(k.Components, j)
 //@   nopanic
 //
 // Inlining copies the callee's statements into the caller and must rewrite every
